@@ -10,7 +10,10 @@ Inductive case :=
 | CIdTime (before : bytes) (t : Z) (after : bytes) (impl_time : Z)
 | CIdOrder (a b : bytes)
 | CSplit (f : list msg) (max : N) (h t : list msg)
-| CQueue (ops : list qop) (sent : list (list msg)).
+| CQueue (ops : list qop) (sent : list (list msg))
+(* concurrent publishers vs the flusher: the (publisher, sequence number) pairs in the order the
+   transport received them *)
+| CQStress (pubs per : N) (seq : list (N * N)).
 
 Definition msg_eqb (a b : msg) : bool :=
   bytes_eqb (m_id a) (m_id b) && bytes_eqb (m_chan a) (m_chan b) && bytes_eqb (m_payload a) (m_payload b)
@@ -47,6 +50,29 @@ Definition q_apply (s : pq) (o : qop) : pq :=
 
 Definition sent_of (ops : list qop) : list msg :=
   flat_map (fun o => match o with QSend m true => [m] | _ => [] end) ops.
+
+(* each publisher's messages appear exactly once and in order *)
+
+Fixpoint bump (exp : list N) (w : nat) : list N :=
+  match exp, w with
+  | [], _ => []
+  | x :: r, O => (x + 1) :: r
+  | x :: r, S k => x :: bump r k
+  end.
+Definition stress_ok (pubs per : N) (seq : list (N * N)) : bool :=
+  let fin := fold_left (fun (st : option (list N)) e =>
+                          match st with
+                          | None => None
+                          | Some exp =>
+                            match nth_error exp (N.to_nat (fst e)) with
+                            | Some x => if x =? snd e then Some (bump exp (N.to_nat (fst e))) else None
+                            | None => None
+                            end
+                          end) seq (Some (repeat 0 (N.to_nat pubs))) in
+  match fin with
+  | Some exp => forallb (fun x => x =? per) exp
+  | None => false
+  end.
 
 Definition check (c : case) : N :=
   match c with
@@ -86,4 +112,5 @@ Definition check (c : case) : N :=
     bit (list_eqb frame_eqb (q_sent s) sent) 1
     (* oracle: everything handed to the active peer reaches the transport once, in order *)
     |+| bit (frame_eqb (concat sent) (sent_of ops)) 2
+  | CQStress pubs per seq => bit (stress_ok pubs per seq) 2
   end.
